@@ -71,7 +71,7 @@ class C20(core.Check):
                  "Base64 helpers re-proved in the package, signatures abstract) + differential end-to-end run: real rend -> scheduled delivery "
                  "(permutations, duplicates, interleavings, batches) -> real receive servicing, against the compiled model")
     quick_n = 500
-    thorough_n = 10000
+    thorough_n = 7000
     level_text = ("Proved for ALL inputs (unbounded). Sender: rend_fuse — whenever rend succeeds on a non-empty memo (any code, either encoding, any size, "
                   "any sign function) the gram bodies concatenate to the memo in gram-number order, none is empty, their number is the number of grams "
                   "and is what the count field encodes, each gram is header ++ body (++ signature). Header codec: header_roundtrip_b64 (+ _zeroth/_later "
